@@ -85,6 +85,8 @@ def run_ip(fields):
     cmd = fields[0]
     if cmd == "gbase":
         cmd = "base"
+    if cmd == "gip4":
+        cmd = "ip4"
     if cmd == "base":
         _, n, B, sal, ops = fields
 
@@ -479,7 +481,7 @@ def run_seq(fields):
     return "\x07".join(outs)
 
 
-DISPATCH = {"iphist": run_iphist, "seq": run_seq, "gjenc": run_jun, "gjdec": run_jun, "gbase": run_ip, "main": run_main, "files": run_files, "asr": run_asr, "pipe": run_pipe, "base": run_ip, "ip4": run_ip, "ip6": run_ip, "jenc": run_jun, "jdec": run_jun}
+DISPATCH = {"iphist": run_iphist, "seq": run_seq, "gjenc": run_jun, "gjdec": run_jun, "gbase": run_ip, "gip4": run_ip, "main": run_main, "files": run_files, "asr": run_asr, "pipe": run_pipe, "base": run_ip, "ip4": run_ip, "ip6": run_ip, "jenc": run_jun, "jdec": run_jun}
 
 
 def main():
